@@ -1205,8 +1205,27 @@ class Engine:
                 cs.append(self.slice_get(sl, bv(i)))
             if all(z3.is_bv_value(z3.simplify(c)) for c in cs):
                 return self.str_const(bytes(z3.simplify(c).as_long() for c in cs).decode("latin1"))
-        t = self.fresh("bstr", StrSort)
-        self.ghost.setdefault("bstrs", []).append((t, sl))
+        # a function of (length, content): equal byte strings give equal strings (congruence)
+        B = self.cfg.get("str_bound", 16)
+        self.oblige("bound", z3.ULE(sl.len, bv(B)), oid="string(bytes)-len<=%d" % B)
+        g0 = self.guard
+        bs = []
+        for i in range(B):
+            inb = z3.ULT(bv(i), sl.len)
+            self.guard = And(g0, inb)
+            if is_false(self.guard):
+                bs.append(bv(0, 8))
+                continue
+            try:
+                b_ = self.slice_get(sl, bv(i))
+            except DeadPath:
+                b_ = bv(0, 8)
+            bs.append(zif(inb, b_, bv(0, 8)))
+        self.guard = g0
+        f = self.ghost.get("strof_uf")
+        if f is None:
+            f = self.ghost["strof_uf"] = z3.Function("strof", *([BV64] + [z3.BitVecSort(8)] * B + [StrSort]))
+        t = f(sl.len, *bs)
         return Str(None, t, sl.len)
 
     def op_ChangeType(self, frame, b, ins):
